@@ -408,6 +408,7 @@ func (w *c12World) doCreateSession(u uint64, slot int, ttl uint64, onetime bool)
 		w.fail("session_provenance", "session-for-other-user", "CreateSession issued a session bound to "+sess.Username)
 	}
 	w.emit(fmt.Sprintf("CreateSession %d %d %d %s", u, n, ttl, cqBool(onetime)), "ODone", desc+fmt.Sprintf(" -> s%d", n))
+	w.doDocExpiry(n)
 }
 
 func (w *c12World) doDeleteSession(n uint64) {
@@ -428,9 +429,11 @@ func (w *c12World) doDeleteSession(n uint64) {
 	w.emit(op, "ODone", desc)
 }
 
-// Advance makes dt seconds pass for the session documents without sleeping: every stored session is aged by dt
-// (Expiration moved back, exactly what the passage of time does to "now + ttl - Expiration"), and documents whose
-// expiry has been reached are removed, as the store's TTL would.
+// Advance makes dt seconds pass for the session documents without sleeping.  The store removes a document when the
+// BUCKET EXPIRY it was written with is reached (sync_gateway never compares LoginSession.Expiration with the clock), so
+// that is what is aged: every stored session's bucket expiry (datastore.GetExpiry) is moved back by dt and the document
+// is removed when it has been reached -- a document WITHOUT a bucket expiry stays, as it would in the store.  The
+// Expiration field is moved back by dt as well (what the passage of time does to "now + ttl - Expiration").
 func (w *c12World) doAdvance(dt uint64) {
 	for n := 1; n < len(w.sids); n++ {
 		key := w.auth.DocIDForSession(w.sids[n])
@@ -441,21 +444,65 @@ func (w *c12World) doAdvance(dt uint64) {
 			}
 			continue
 		}
-		rem := int64(sess.Expiration.Sub(time.Now())/time.Second+5) / 10 * 10 // whole seconds, the values used are multiples of 10
-		rem -= int64(dt)
+		exp, err := w.auth.datastore.GetExpiry(w.ctx, key)
+		if err != nil {
+			w.unexpected("GetExpiry(session)", err)
+			continue
+		}
+		sess.Expiration = sess.Expiration.Add(-time.Duration(dt) * time.Second)
+		if exp == 0 { // no bucket expiry: the store keeps the document for ever
+			if err := w.auth.datastore.Set(w.ctx, key, 0, nil, sess); err != nil {
+				w.unexpected("Set(aged session)", err)
+			}
+			continue
+		}
+		rem := (int64(exp)-time.Now().Unix()+5)/10*10 - int64(dt) // whole seconds, the values used are multiples of 10
 		if rem <= 0 {
 			if err := w.auth.datastore.Delete(w.ctx, key); err != nil {
 				w.unexpected("Delete(expired session)", err)
 			}
 			continue
 		}
-		sess.Expiration = sess.Expiration.Add(-time.Duration(dt) * time.Second)
 		if err := w.auth.datastore.Set(w.ctx, key, uint32(rem), nil, sess); err != nil {
 			w.unexpected("Set(aged session)", err)
 		}
 	}
 	w.vnow += int64(dt)
 	w.emit(fmt.Sprintf("Advance %d", dt), "ODone", fmt.Sprintf("Advance(%ds)", dt))
+}
+
+// doDocExpiry observes the bucket expiry of the session document (after every create / presentation): the model's
+// DocExpiry.  Monitor session_documents_carry_expiry (C12_session_documents_carry_expiry on the implementation): a
+// stored session document carries a bucket expiry, and it is the document's Expiration.
+func (w *c12World) doDocExpiry(n uint64) {
+	desc := fmt.Sprintf("GetExpiry(s%d)", n)
+	key := w.auth.DocIDForSession(w.sids[n])
+	var sess LoginSession
+	out := "OExp None"
+	if _, err := w.auth.datastore.Get(w.ctx, key, &sess); err != nil {
+		if !base.IsDocNotFoundError(err) {
+			w.unexpected("Get(session)", err)
+		}
+	} else {
+		exp, err := w.auth.datastore.GetExpiry(w.ctx, key)
+		if err != nil {
+			w.unexpected("GetExpiry(session)", err)
+		}
+		switch {
+		case exp == 0:
+			out = "OExp (Some 0)"
+			w.fail("session_documents_carry_expiry", "session-document-without-expiry",
+				fmt.Sprintf("the stored document of session s%d has NO bucket expiry (Expiration field: in %ds): cookie authentication never compares Expiration with the clock, so this session authenticates for ever", n, int64(time.Until(sess.Expiration)/time.Second)))
+		default:
+			rem := (int64(exp) - time.Now().Unix() + 5) / 10 * 10
+			out = fmt.Sprintf("OExp (Some %d)", rem)
+			if d := int64(exp) - sess.Expiration.Unix(); d < -2 || d > 2 {
+				w.fail("session_documents_carry_expiry", "session-document-expiry-differs-from-expiration",
+					fmt.Sprintf("the stored document of session s%d expires %ds away from its Expiration field", n, d))
+			}
+		}
+	}
+	w.emit(fmt.Sprintf("DocExpiry %d", n), out, desc)
 }
 
 func (w *c12World) cacheVector() map[string]bool {
@@ -763,6 +810,7 @@ func (w *c12World) doAuthCookie(n uint64) {
 		w.rec.Err("AuthenticateCookie-rejected")
 	}
 	w.emit(fmt.Sprintf("AuthCookie %d", n), fmt.Sprintf("OCookie %s %s", who, cqBool(refreshed)), desc)
+	w.doDocExpiry(n)
 }
 
 func (w *c12World) doAuthOneTime(n uint64) {
@@ -785,6 +833,7 @@ func (w *c12World) doAuthOneTime(n uint64) {
 		}
 	}
 	w.emit(fmt.Sprintf("AuthOneTime %d", n), out, desc)
+	w.doDocExpiry(n)
 }
 
 func (w *c12World) doGetSession(n uint64) {
@@ -1393,6 +1442,122 @@ func TestVerifC12(t *testing.T) {
 		}
 	}
 	rec.Extra("bcrypt_equivalent_nonplain_accepted", truncSeen)
+
+	// ---------- (f0) real time, real store TTL: the refresh path of AuthenticateCookie (monitor only) ----------
+	// Sessions with a TTL of a few seconds: A is presented after more than 10% of its TTL (refreshed: Set-Cookie), B after
+	// less (not refreshed), C never, D is one-time.  After every write the document must carry a bucket expiry equal to
+	// its Expiration; after the (extended) TTL none of them may authenticate -- the store, not the code, expires them.
+	{
+		type rtSess struct {
+			name          string
+			id            string
+			ttl           time.Duration
+			onetime       bool
+			presentAt     time.Duration // 0 = never presented before the end
+			expectRefresh bool
+			refreshedAt   time.Time
+			created       time.Time
+		}
+		rts := []*rtSess{
+			{name: "A-refreshed", ttl: 3 * time.Second, presentAt: 1200 * time.Millisecond, expectRefresh: true},
+			{name: "B-not-refreshed", ttl: 4 * time.Second, presentAt: 100 * time.Millisecond},
+			{name: "C-never-presented", ttl: 2 * time.Second},
+			{name: "D-one-time", ttl: 3 * time.Second, onetime: true, presentAt: 1200 * time.Millisecond},
+			{name: "E-refreshed-twice", ttl: 2 * time.Second, presentAt: 600 * time.Millisecond, expectRefresh: true},
+		}
+		checkDoc := func(r *rtSess, when string) {
+			key := a.DocIDForSession(r.id)
+			var doc LoginSession
+			if _, err := ds.Get(ctx, key, &doc); err != nil {
+				return
+			}
+			exp, err := ds.GetExpiry(ctx, key)
+			in := map[string]any{"session": r.name, "ttl_ms": r.ttl.Milliseconds(), "when": when}
+			if err == nil && exp == 0 {
+				c12Fail(rec, "session_documents_carry_expiry", "session-document-without-expiry", in, "the stored session document has no bucket expiry "+when+": it will never expire")
+			} else if err == nil {
+				if d := int64(exp) - doc.Expiration.Unix(); d < -2 || d > 2 {
+					c12Fail(rec, "session_documents_carry_expiry", "session-document-expiry-differs-from-expiration", in, fmt.Sprintf("bucket expiry is %ds away from the Expiration field %s", d, when))
+				}
+			}
+		}
+		cookieAt := func(r *rtSess) (bool, bool) {
+			req, _ := http.NewRequest(http.MethodGet, "http://localhost/db/", nil)
+			req.AddCookie(&http.Cookie{Name: a.SessionCookieName, Value: r.id})
+			resp := httptest.NewRecorder()
+			usr, err := a.AuthenticateCookie(req, resp)
+			return err == nil && usr != nil, resp.Header().Get("Set-Cookie") != ""
+		}
+		start := time.Now()
+		for _, r := range rts {
+			sess, err := a.CreateSession(ctx, otUser, r.ttl, r.onetime)
+			if err != nil {
+				t.Fatalf("CreateSession: %v", err)
+			}
+			r.id, r.created = sess.ID, time.Now()
+			checkDoc(r, "after CreateSession")
+		}
+		// presentations in time order
+		for _, at := range []time.Duration{100 * time.Millisecond, 600 * time.Millisecond, 1200 * time.Millisecond} {
+			if d := at - time.Since(start); d > 0 {
+				time.Sleep(d)
+			}
+			for _, r := range rts {
+				if r.presentAt != at {
+					continue
+				}
+				ok, refreshed := cookieAt(r)
+				in := map[string]any{"session": r.name, "ttl_ms": r.ttl.Milliseconds(), "presented_after_ms": time.Since(r.created).Milliseconds()}
+				rec.Count("ttl", "real-time-refresh", r.name, true)
+				if !ok {
+					c12Fail(rec, "harness", "live-session-rejected", in, "a live session was refused")
+				}
+				if refreshed && r.onetime {
+					c12Fail(rec, "one_time_never_rewritten", "one-time-session-refreshed", in, "a one-time session was refreshed")
+				}
+				if refreshed != r.expectRefresh && !r.onetime {
+					rec.Err(fmt.Sprintf("real-time-refresh-unexpected-%v", refreshed)) // timing on a loaded machine: recorded, not judged
+				}
+				if refreshed {
+					r.refreshedAt = time.Now()
+				}
+				checkDoc(r, "after the presentation")
+			}
+		}
+		// E once more, shortly before its extended expiry: refreshed a second time
+		if e := rts[4]; !e.refreshedAt.IsZero() {
+			if d := time.Until(e.refreshedAt.Add(1000 * time.Millisecond)); d > 0 {
+				time.Sleep(d)
+			}
+			if ok, refreshed := cookieAt(e); ok && refreshed {
+				e.refreshedAt = time.Now()
+			}
+			checkDoc(e, "after the second presentation")
+		}
+		// wait until every session is past its (extended) expiry, with a margin for the store's whole-second expiry
+		var latest time.Time
+		for _, r := range rts {
+			end := r.created.Add(r.ttl)
+			if !r.refreshedAt.IsZero() {
+				end = r.refreshedAt.Add(r.ttl)
+			}
+			if end.After(latest) {
+				latest = end
+			}
+		}
+		if d := time.Until(latest.Add(1600 * time.Millisecond)); d > 0 {
+			time.Sleep(d)
+		}
+		for _, r := range rts {
+			ok, _ := cookieAt(r)
+			rec.Count("ttl", "real-time-expiry", r.name, true)
+			if ok {
+				c12Fail(rec, "session_auth_sound", "expired-session-authenticates",
+					map[string]any{"session": r.name, "ttl_ms": r.ttl.Milliseconds(), "refreshed": !r.refreshedAt.IsZero(), "age_ms": time.Since(r.created).Milliseconds()},
+					"a session authenticated after its (extended) expiration: the store did not remove its document")
+			}
+		}
+	}
 
 	// ---------- (f) real TTL expiry (thorough tier only: needs to wait for the store) ----------
 	if vThorough() {
